@@ -973,7 +973,7 @@ def scanner_family(ctx, st, quick):
     st["scanbyte"] = len(sb)
     st["scanbyte_modelled"] = 0
     if len(st["viol"]) < 5:
-        n = min(len(sb), max(1, int((3000 if quick else 12000) * SCALE)))
+        n = min(len(sb), max(1, int((3000 if quick else 6000) * SCALE)))
         sample = ctx.rng.sample(sb, n)
         before = st["agree_ok"] + st["agree_err"]
         check_texts(ctx, sample, st, "scanbytem", batch=400)
